@@ -54,25 +54,23 @@ var n2Fields = map[string]string{
 
 // Reasoned exceptions: construct -> reason (one named construct each).
 var e2Exceptions = map[string]string{
-	"netpol/eval/internal/k8s.ruleConnections: deref of dst.GetPeerPod() [N3]":                                                                                                                                                                "reached only through updatePolicyConns after egressRuleSelectsPeer/ingressRuleSelectsPeer matched a Namespaces/Pods peer, which never match an IP block (C02-d), so dst is a pod; ANP named ports on IP destinations cannot occur",
-	"netpol/eval/internal/k8s.anpPortContains: deref of dst.GetPeerPod() [N3]":                                                                                                                                                                "same invariant as ruleConnections: the rule's peer matched dst before the ports are examined, and admin-policy peers never match IP blocks",
-	"netpol/eval.updatePeerXgressClusterWideExposure: deref of dst.GetPeerPod() [N3]":                                                                                                                                                         "called with the policy that selected dst for ingress; NetworkPolicies select only pods (getPoliciesSelectingPod returns none for an IP block)",
-	"netpol/eval.updatePeerXgressClusterWideExposure: deref of src.GetPeerPod() [N3]":                                                                                                                                                         "called with the policy that selected src for egress; NetworkPolicies select only pods",
-	"netpol/eval/internal/k8s.doesNamespacesFieldMatchPeer: deref of peer.GetPeerNamespace() [N3]":                                                                                                                                            "peer is a pod here (IP test above); namespace objects are attached by getPeer/convertPeerToPodPeer for every real pod, and representative peers (nil namespace) never meet admin policies because exposure analysis rejects admin policies at insertion",
-	"netpol/eval/internal/k8s.doesPodsFieldMatchPeer: deref of peer.GetPeerNamespace() [N3]":                                                                                                                                                  "same as doesNamespacesFieldMatchPeer",
-	"netpol/eval.(*PolicyEngine).removeRedundantRepresentativePeers: deref of pe.namespacesMap[podObj.Namespace] [N5]":                                                                                                                        "the namespace was inserted by the resolveSingleMissingNamespace call that precedes the lookup in the same function (its error is returned before)",
-	"netpol/eval.(*PolicyEngine).removeRepresentativePeersMatchingLabels: deref of netpol/eval/internal/k8s.Pod.RepresentativeNsLabelSelector [N2]":                                                                                           "entries of representativePeersMap are created only by addRepresentativePod, which stores a non-nil namespace selector (nil with an empty namespace is an error return, nil with a namespace is replaced by the name-label selector)",
-	"netpol/eval.(*evalCache).deleteWorkload: deref of netpol/eval.evalCache.cache [N2]":                                                                                                                                                      "cache is nil only when lru.New fails, which it does only for size <= 0; newEvalCacheWithSize clamps the size to [10,10000]. Not reachable by any input",
-	"netpol/internal/common.(*ConnectionSet).ReplaceNamedPortWithMatchingPortNum: deref of protocolPortSet (alias of conn.AllowedProtocols[protocol] [N5]) [N4]":                                                                              "called only from checkAndConvertNamedPortsInConnection with protocols that are keys of GetNamedPorts() of the very set the copy was made from, so the protocol is present",
-	"netpol/connlist.(*exposureMaps).appendPeerXgressExposureData: deref of ex.ingressExposureMap[peer] [N5]":                                                                                                                                 "every call is dominated by addNewEntry(peer, _, isIngress) on the same peer and direction in the calling function (checked by rule E2-N5-pre)",
-	"netpol/connlist.(*exposureMaps).appendPeerXgressExposureData: deref of ex.egressExposureMap[peer] [N5]":                                                                                                                                  "every call is dominated by addNewEntry(peer, _, isIngress) on the same peer and direction in the calling function (checked by rule E2-N5-pre)",
-	"netpol/eval.(*PolicyEngine).GetSelectedPeers: assertion peer.(*k8s.WorkloadPeer) [N7]":                                                                                                                                                   "peer ranges over the values of createPodOwnersMap, which stores only &k8s.WorkloadPeer{} (its single store, checked by rule E2-N7-store)",
-	"netpol/eval.(*PolicyEngine).allAllowedConnectionsBetweenPeers: assertion srcPeer.(k8s.Peer) [N7]":                                                                                                                                        "callers pass only *k8s.PodPeer (converted) or IP peers under IsPeerIPType (checked by rule E2-N7-callers)",
-	"netpol/eval.(*PolicyEngine).allAllowedConnectionsBetweenPeers: assertion dstPeer.(k8s.Peer) [N7]":                                                                                                                                        "callers pass only *k8s.PodPeer (converted) or IP peers under IsPeerIPType (checked by rule E2-N7-callers)",
-	"netpol/diff.(mapListConnPairs).mergeBySrcOrDstIPPeers: constant index srcOrdstIPgroup[0] [N8]":                                                                                                                                           "srcOrdstIPgroup ranges over the values of a map whose entries are created only by append of one element (diffMap.update / addConnsPair), hence non-empty",
-	"netpol/eval.(*PolicyEngine).insertWorkload: podObj (declared without initialiser and assigned only by a range loop that may not run) passed to netpol/eval.(*PolicyEngine).removeRedundantRepresentativePeers (dereferenced there) [N4]": "PodsFromWorkloadObject returns a slice of numReplicas pods and numReplicas is only ever the constant 1 or 2, so the loop runs at least once (checked by rule E2-N4-len)",
-	"netpol/connlist/internal/ingressanalyzer.(*IngressAnalyzer).getIngressPeerConnection: deref of peerTCPConn (alias of result of netpol/eval.GetPeerExposedTCPConnections (has a `return nil`) [N11]) [N11]":      "GetPeerExposedTCPConnections returns nil only for IP peers and unknown peer types; the peers here are the values stored by mapServiceToPeers, which come from GetSelectedPeers and are *k8s.WorkloadPeer (E2-N7-store)",
-	"netpol/eval.(*PolicyEngine).getPoliciesSelectingPod: assertion peer.(*k8s.PodPeer) [N7]":                                                                                                                                                 "dominated by the PeerType()==IPBlockType early return; the only non-IP implementation of k8s.Peer is *PodPeer",
+	"netpol/eval.(*PolicyEngine).removeRepresentativePeersMatchingLabels: deref of netpol/eval/internal/k8s.Pod.RepresentativeNsLabelSelector [N2]":                                                                                               "entries of representativePeersMap are created only by addRepresentativePod, which stores a non-nil namespace selector (nil with an empty namespace is an error return, nil with a namespace is replaced by the name-label selector)",
+	"netpol/eval.(*evalCache).deleteWorkload: deref of netpol/eval.evalCache.cache [N2]":                                                                                                                                                          "cache is nil only when lru.New fails, which it does only for size <= 0; newEvalCacheWithSize clamps the size to [10,10000]. Not reachable by any input",
+	"netpol/eval.(*PolicyEngine).getPoliciesSelectingPod: assertion peer.(*k8s.PodPeer) [N7]":                                                                                                                                                     "dominated by the PeerType()==IPBlockType early return; the only non-IP implementation of k8s.Peer is *PodPeer",
+	"netpol/eval/internal/k8s.ruleConnections: deref of ‹k8s.Peer›.GetPeerPod() [N3]":                                                                                                                                                             "reached only through updatePolicyConns after egressRuleSelectsPeer/ingressRuleSelectsPeer matched a Namespaces/Pods peer, which never match an IP block (C02-d), so dst is a pod; ANP named ports on IP destinations cannot occur",
+	"netpol/eval/internal/k8s.anpPortContains: deref of ‹k8s.Peer›.GetPeerPod() [N3]":                                                                                                                                                             "same invariant as ruleConnections: the rule's peer matched dst before the ports are examined, and admin-policy peers never match IP blocks",
+	"netpol/eval.updatePeerXgressClusterWideExposure: deref of ‹k8s.Peer›.GetPeerPod() [N3]":                                                                                                                                                      "called with the policy that selected dst for ingress; NetworkPolicies select only pods (getPoliciesSelectingPod returns none for an IP block) / called with the policy that selected src for egress; NetworkPolicies select only pods",
+	"netpol/eval/internal/k8s.doesNamespacesFieldMatchPeer: deref of ‹k8s.Peer›.GetPeerNamespace() [N3]":                                                                                                                                          "peer is a pod here (IP test above); namespace objects are attached by getPeer/convertPeerToPodPeer for every real pod, and representative peers (nil namespace) never meet admin policies because exposure analysis rejects admin policies at insertion",
+	"netpol/eval/internal/k8s.doesPodsFieldMatchPeer: deref of ‹k8s.Peer›.GetPeerNamespace() [N3]":                                                                                                                                                "same as doesNamespacesFieldMatchPeer",
+	"netpol/eval.(*PolicyEngine).removeRedundantRepresentativePeers: deref of ‹*eval.PolicyEngine›.namespacesMap[‹*k8s.Pod›.Namespace] [N5]":                                                                                                      "the namespace was inserted by the resolveSingleMissingNamespace call that precedes the lookup in the same function (its error is returned before)",
+	"netpol/internal/common.(*ConnectionSet).ReplaceNamedPortWithMatchingPortNum: deref of ‹*common.PortSet› (alias of ‹*common.ConnectionSet›.AllowedProtocols[‹v1.Protocol›] [N5]) [N4]":                                                        "called only from checkAndConvertNamedPortsInConnection with protocols that are keys of GetNamedPorts() of the very set the copy was made from, so the protocol is present",
+	"netpol/connlist.(*exposureMaps).appendPeerXgressExposureData: deref of ‹*connlist.exposureMaps›.ingressExposureMap[‹connlist.Peer›] [N5]":                                                                                                    "every call is dominated by addNewEntry(peer, _, isIngress) on the same peer and direction in the calling function (checked by rule E2-N5-pre)",
+	"netpol/connlist.(*exposureMaps).appendPeerXgressExposureData: deref of ‹*connlist.exposureMaps›.egressExposureMap[‹connlist.Peer›] [N5]":                                                                                                     "every call is dominated by addNewEntry(peer, _, isIngress) on the same peer and direction in the calling function (checked by rule E2-N5-pre)",
+	"netpol/eval.(*PolicyEngine).GetSelectedPeers: assertion ‹eval.Peer›.(*k8s.WorkloadPeer) [N7]":                                                                                                                                                "peer ranges over the values of createPodOwnersMap, which stores only &k8s.WorkloadPeer{} (its single store, checked by rule E2-N7-store)",
+	"netpol/eval.(*PolicyEngine).allAllowedConnectionsBetweenPeers: assertion ‹eval.Peer›.(k8s.Peer) [N7]":                                                                                                                                        "callers pass only *k8s.PodPeer (converted) or IP peers under IsPeerIPType (checked by rule E2-N7-callers)",
+	"netpol/diff.(mapListConnPairs).mergeBySrcOrDstIPPeers: constant index ‹[]*diff.connsPair›[0] [N8]":                                                                                                                                           "srcOrdstIPgroup ranges over the values of a map whose entries are created only by append of one element (diffMap.update / addConnsPair), hence non-empty",
+	"netpol/eval.(*PolicyEngine).insertWorkload: ‹*k8s.Pod› (declared without initialiser and assigned only by a range loop that may not run) passed to netpol/eval.(*PolicyEngine).removeRedundantRepresentativePeers (dereferenced there) [N4]": "PodsFromWorkloadObject returns a slice of numReplicas pods and numReplicas is only ever the constant 1 or 2, so the loop runs at least once (checked by rule E2-N4-len)",
+	"netpol/connlist/internal/ingressanalyzer.(*IngressAnalyzer).getIngressPeerConnection: deref of ‹*common.ConnectionSet› (alias of result of netpol/eval.GetPeerExposedTCPConnections (has a `return nil`) [N11]) [N11]":                       "GetPeerExposedTCPConnections returns nil only for IP peers and unknown peer types; the peers here are the values stored by mapServiceToPeers, which come from GetSelectedPeers and are *k8s.WorkloadPeer (E2-N7-store)",
 }
 
 type nilAnalysis struct {
@@ -573,13 +571,13 @@ func (f *nilFunc) source(e ast.Expr, fm facts.Formula) (kind, desc string) {
 		o := f.info.ObjectOf(x)
 		if why, ok := f.seeded[o]; ok {
 			if k := f.seedKind[o]; k != "" {
-				return k, x.Name + " (" + why + ")"
+				return k, core.Stable(f.info, x) + " (" + why + ")"
 			}
-			return "N4", x.Name + " (" + why + ")"
+			return "N4", core.Stable(f.info, x) + " (" + why + ")"
 		}
 		if okObj, ok := f.valVars[o]; ok && okObj != nil {
 			if _, isPtr := o.Type().Underlying().(*types.Pointer); isPtr {
-				return "N5v", x.Name + " (value of a comma-ok map lookup, nil when the key is absent)"
+				return "N5v", core.Stable(f.info, x) + " (value of a comma-ok map lookup, nil when the key is absent)"
 			}
 		}
 	case *ast.SelectorExpr:
@@ -596,7 +594,7 @@ func (f *nilFunc) source(e ast.Expr, fm facts.Formula) (kind, desc string) {
 	case *ast.CallExpr:
 		if fn := core.Callee(f.info, x); fn != nil && f.a.getters[fn] {
 			if se, ok := x.Fun.(*ast.SelectorExpr); ok {
-				return "N3", core.ExprStr(se.X) + "." + fn.Name() + "()"
+				return "N3", core.Stable(f.info, se.X) + "." + fn.Name() + "()"
 			}
 		}
 		if fn := core.Callee(f.info, x); fn != nil {
@@ -609,7 +607,7 @@ func (f *nilFunc) source(e ast.Expr, fm facts.Formula) (kind, desc string) {
 	case *ast.IndexExpr:
 		if mt, ok := f.info.TypeOf(x.X).Underlying().(*types.Map); ok {
 			if _, isPtr := mt.Elem().Underlying().(*types.Pointer); isPtr {
-				return "N5", core.ExprStr(x)
+				return "N5", core.Stable(f.info, x)
 			}
 		}
 	}
@@ -925,7 +923,7 @@ func (f *nilFunc) argObligation(c *ast.CallExpr, callee *types.Func, idx int, su
 	// field path of the argument: the callee dereferences arg<suffix>, an optional API/module field
 	if facts.Entails(fm, facts.Not{X: facts.Atom("nil:" + path)}) {
 		if f.a.report {
-			f.a.r.OK("E2-N1", f.construct(fmt.Sprintf("%s%s established non-nil for %s", core.ExprStr(arg), suffix, core.FuncKey(callee)), "N1"), f.a.p.Pos(c.Pos()), "the call site establishes the callee's requires-summary")
+			f.a.r.OK("E2-N1", f.construct(fmt.Sprintf("%s%s established non-nil for %s", core.Stable(f.info, arg), suffix, core.FuncKey(callee)), "N1"), f.a.p.Pos(c.Pos()), "the call site establishes the callee's requires-summary")
 		}
 		return
 	}
@@ -935,7 +933,7 @@ func (f *nilFunc) argObligation(c *ast.CallExpr, callee *types.Func, idx int, su
 	if !f.a.report {
 		return
 	}
-	cst := f.construct(fmt.Sprintf("%s%s not established non-nil for %s", core.ExprStr(arg), suffix, core.FuncKey(callee)), "N1")
+	cst := f.construct(fmt.Sprintf("%s%s not established non-nil for %s", core.Stable(f.info, arg), suffix, core.FuncKey(callee)), "N1")
 	if why, ok := e2Exceptions[cst]; ok {
 		f.a.r.Add("E2-N1", cst, f.a.p.Pos(c.Pos()), core.Excepted, why)
 		return
@@ -972,7 +970,7 @@ func (f *nilFunc) assertion(x *ast.TypeAssertExpr, fm facts.Formula) {
 	if st == nil || tt == nil {
 		return
 	}
-	c := f.construct("assertion "+core.ExprStr(x), "N7")
+	c := f.construct("assertion "+core.Stable(f.info, x), "N7")
 	pos := f.a.p.Pos(x.Pos())
 	iface, _ := st.Underlying().(*types.Interface)
 	if iface != nil && iface.NumMethods() > 0 {
@@ -1086,7 +1084,7 @@ func (f *nilFunc) constIndex(x *ast.IndexExpr, fm facts.Formula) {
 	if !ok || tv.Value == nil {
 		return
 	}
-	c := f.construct("constant index "+core.ExprStr(x), "N8")
+	c := f.construct("constant index "+core.Stable(f.info, x), "N8")
 	pos := f.a.p.Pos(x.Pos())
 	idx := tv.Value.ExactString()
 	bg := facts.MkAnd(fm, facts.LenImplications(fm))
@@ -1203,7 +1201,7 @@ func (f *nilFunc) libraryPrecondition(c *ast.CallExpr, fn *types.Func, fm facts.
 	switch full {
 	case "github.com/np-guard/models/pkg/netset.IPBlockFromIPAddress":
 		// panics (index out of range) unless the string is an IPv4 address: net.ParseIP(s).To4() must be known non-nil
-		cst := f.construct("call of netset.IPBlockFromIPAddress("+core.ExprStr(c.Args[0])+")", "N9")
+		cst := f.construct("call of netset.IPBlockFromIPAddress("+core.Stable(f.info, c.Args[0])+")", "N9")
 		pos := f.a.p.Pos(c.Pos())
 		if f.ipv4Validated(c.Args[0], fm) {
 			f.a.r.OK("E2-N9", cst, pos, "dominated by net.ParseIP(arg).To4() != nil on the same argument")
@@ -1370,7 +1368,7 @@ func (a *nilAnalysis) termination() {
 			if !ok {
 				return true
 			}
-			c := fd.Key() + ": for " + core.ExprStr(fs.Cond)
+			c := fd.Key() + ": for " + core.Stable(fd.Pkg.TypesInfo, fs.Cond)
 			if countedLoop(info, fs) {
 				a.r.OK("E2-N10", c, a.p.Pos(fs.Pos()), "counted loop: index compared with a loop-invariant bound and stepped by a constant")
 			} else {
@@ -1571,7 +1569,7 @@ func NilAuxiliary(p *core.Program, r *core.Report) {
 				if !okArg && fm != nil && facts.Entails(fm, facts.Atom("isIP:"+w.Path(arg))) {
 					okArg, how = true, "under IsPeerIPType(): the only IP implementation of eval.Peer is *k8s.IPBlockPeer, which implements k8s.Peer"
 				}
-				r.Check(okArg, "E2-N7-callers", fmt.Sprintf("%s: argument %d (%s) of allAllowedConnectionsBetweenPeers is a k8s.Peer", cs.In.Key(), i, core.ExprStr(arg)), p.Pos(cs.Call.Pos()),
+				r.Check(okArg, "E2-N7-callers", fmt.Sprintf("%s: argument %d (%s) of allAllowedConnectionsBetweenPeers is a k8s.Peer", cs.In.Key(), i, core.Stable(cs.In.Pkg.TypesInfo, arg)), p.Pos(cs.Call.Pos()),
 					how, "allAllowedConnectionsBetweenPeers asserts its arguments to k8s.Peer unconditionally; this argument is not known to be one (a *k8s.WorkloadPeer is not)")
 			}
 		}
